@@ -61,9 +61,22 @@ theorem PresW.setFromConfigure : ∀ (l : List (Key × Option Val)) (d : Bool), 
   | kv :: r, d => by
     unfold MesonModel.Options.setFromConfigure
     exact PresW.bind' (PresW.configureOne kv) (fun b => PresW.setFromConfigure r (d || b))
+/-- re-pointing children keeps the heap length and the key table -/
+theorem PresW.repointChildren (oid nid : Nat) : PresW (repointChildren oid nid) := by
+  unfold MesonModel.Options.repointChildren
+  apply PresW.modify
+  intro s hs
+  split
+  · exact hs
+  · exact ⟨fun k i hk => by simpa using hs.1 k i hk, fun k1 k2 i h1 h2 => hs.2 k1 k2 i h1 h2⟩
+
+theorem PresW.replaceObj (key : Key) (nobj old : Obj) (oid : Nat) (b : Bool) : PresW (replaceObj key nobj old oid b) := by
+  unfold MesonModel.Options.replaceObj
+  repeat (first | exact PresW.repointChildren _ _ | pw_core)
+
 theorem PresW.updateOne (sub : Str) (kv : Key × Obj) : PresW (updateOne sub kv) := by
   unfold MesonModel.Options.updateOne
-  repeat (first | exact PresW.setOption _ _ _ | exact PresW.addProjectOption _ _ | pw_core)
+  repeat (first | exact PresW.setOption _ _ _ | exact PresW.addProjectOption _ _ | exact PresW.replaceObj _ _ _ _ _ | pw_core)
 theorem PresW.updateProjectOptions (sub : Str) (objs : List (Key × Obj)) : PresW (updateProjectOptions sub objs) := by
   unfold MesonModel.Options.updateProjectOptions
   apply PresW.bind (PresW.forEach (PresW.updateOne sub) objs)
